@@ -155,7 +155,11 @@ macro_rules! v2c_prefix_tail {
             // the first $p octets of the well-formed frame, then $n unconstrained octets; the outer length covers them
             const F: [u8; $p + $n] = frame(V2C_RESP, $p);
             let mut b = F;
+            // every enclosing element is re-sized to end exactly where the buffer ends
             b[1] = ($p + $n - 2) as u8;
+            if $p >= 12 { b[11] = ($p + $n - 12) as u8; }
+            if $p >= 26 { b[25] = ($p + $n - 26) as u8; }
+            if $p >= 28 { b[27] = ($p + $n - 28) as u8; }
             let mut i = 0;
             while i < $n {
                 b[$p + i] = kani::any();
@@ -187,3 +191,31 @@ v2c_prefix_tail!(v2c_tail_at_value_4, 33, 4);
 v2c_prefix_tail!(v2c_tail_at_vbl_6, 24, 6);
 //@ C01 thorough | v2c decoder: prefix up to the varbind value, then 7 unconstrained octets
 v2c_prefix_tail!(v2c_tail_at_value_7, 33, 7);
+
+std_stubs_harness! {
+//@ C07,C02 quick timeout=900 | GetResponse with three varbinds: absolute name, RELATIVE-OID changing two trailing arcs, RELATIVE-OID changing the last arc: every relative name resolves against the PRECEDING varbind's name; values keep their positions
+fn getresponse_relative_chain() {
+    use crate::snmp::getresponse::SnmpGetResponse;
+    let x: u8 = kani::any();
+    let y: u8 = kani::any();
+    let z: u8 = kani::any();
+    kani::assume(x < 128 && y < 128 && z < 128);
+    // PDU body: rid, err, err, varbinds { 1.3.6.1.10.11 = 1 ; rel (x.y) = 2 ; rel (z) = 3 }
+    let b = [
+        0x02u8, 1, 5, 0x02, 1, 0, 0x02, 1, 0, 0x30, 28,
+        0x30, 10, 0x06, 5, 43, 6, 1, 10, 11, 0x02, 1, 1,
+        0x30, 7, 0x0d, 2, x, y, 0x02, 1, 2,
+        0x30, 6, 0x0d, 1, z, 0x02, 1, 3,
+    ];
+    let r = SnmpGetResponse::try_from(&b[..]).expect("well-formed response decodes");
+    assert!(r.request_id == 5 && r.vars.len() == 3, "three_varbinds");
+    let n0: &[u8] = &r.vars[0].oid.0;
+    let n1: &[u8] = &r.vars[1].oid.0;
+    let n2: &[u8] = &r.vars[2].oid.0;
+    assert!(n0 == &[43u8, 6, 1, 10, 11][..], "absolute_name");
+    assert!(n1.len() == 5 && n1[..3] == [43u8, 6, 1][..] && n1[3] == x && n1[4] == y, "relative_name_replaces_trailing_arcs_of_previous");
+    assert!(n2.len() == 5 && n2[3] == x && n2[4] == z, "relative_name_resolves_against_the_preceding_varbind");
+    kani::cover!(x != 10, "second varbind changed a higher arc");
+    core::mem::forget(r);
+}
+}
